@@ -27,3 +27,16 @@ package util
 // TZ=/CRON_TZ= prefix without a spec (finding F18), and the expression is client input (C13): the parse runs
 // under a deferred recover
 //@ site call Parse assert [C13] recovers()
+
+// The decoding chain the sender uses for a stored receiver (C19: a receiver is read either as a logical name or
+// as a physical receiver, never as a mixture): each target is tried once, and a target whose attempt failed is
+// reset to its zero value AFTER the attempt (json.Unmarshal may already have written into it before it failed:
+// decoding an object into a **string allocates the inner pointer first), so that the caller sees exactly one
+// non-zero target on success and none on failure. The engine's summary of UnmarshalChain at the call sites is
+// this behaviour. reflect and encoding/json are abstracted: the unit proves the order of the steps.
+//@ func UnmarshalChain
+//@ props C19 C08 C13 C18
+//@ abstract-calls force ^(Unmarshal|ValueOf|IsNil|Elem|Set|Zero|Type|Join)$
+//@ site call Set assert itercalls("Unmarshal") == 1
+//@ site loop 1 backedge assert itercalls("Unmarshal") == 1 && itercalls("IsNil") == 1 && (!iterres("IsNil", 0) ==> itercalls("Set") == 1)
+//@ site loop 1 return assert result0 == nil && itercalls("Unmarshal") == 1 && itercalls("Set") == 0
